@@ -12,7 +12,10 @@ THEOREMS = ["C05_rows_multiset", "C05_rows_multiset_other", "C05_select_preserve
 RULE = ("engine histories on one shard: STOREs of several event types spread over different subsets of segments, "
         "FLUSH, compaction rounds (hook compact_now) repeated to quiescence with observations before and after "
         "each round, restarts, and abort() at the compaction step points; non-trivial = a round that produced at "
-        "least one plan; distinct by (configuration, op sequence)")
+        "least one plan; distinct by (configuration, op sequence); scenarios added after seeded misses: merged outputs of "
+        "more than 64 zones per type, a lone segment climbing past level 10 (six-digit ids) + restart, a read fault on one "
+        "input / on one type of a two-type batch / on one of two batches of a round, an index replacement that fails and "
+        "is retried with a larger batch, reads between the batches of a round")
 ASSUMPTIONS = ["one shard; compaction rounds are triggered on demand through the cfg(sneldb_verif) hook compact_now, which "
                "runs CompactionWorker::run with the shard's own live list and flush lock",
                "process crash only (no power loss)"]
